@@ -1,1 +1,356 @@
-/-! Property theorems for C12 (stub: none yet). -/
+import TxdbusModel.Route.Pre
+import TxdbusModel.Proofs.Route.Match
+import TxdbusModel.Proofs.Route.Router
+import TxdbusModel.Proofs.Route.Text
+import TxdbusModel.Proofs.Route.Proxy
+import TxdbusModel.Proofs.Route.Client
+/-!
+# C12 - a signal reaches exactly the callbacks whose match rule it satisfies
+
+Property theorems only (lemmas live in `Proofs/Route/`).  Code models: `Route/Rule`, `Route/Router`,
+`Route/Text`, `Route/Client`, `Route/Proxy` (twins of txdbus/router.py, client.py, bus.py, objects.py);
+Spec: `Route/Spec` (`specMatches`, the abstract registry `SpecRouter`).  All theorems are stated for
+`Tables.gen`, the tables regenerated from the source on every run.
+-/
+namespace Txdbus.Route
+
+open Spec
+
+/-! ## 0. the tables of the current source are the ones the proofs are about -/
+
+/-- `router._mtypes`, the tuple of `Rule.add`, the keys `MessageRouter.addMatch` stores each parameter
+under, how the type constraint is translated, the keys of the rule text written by
+`DBusClientConnection.addMatch` and the `kwargs` keys of `Bus.dbus_AddMatch`. -/
+theorem tables_current :
+    Tables.gen = Tables.cur
+    ∧ Gen.Route.busKwargKeys = curBusKeys
+    ∧ Gen.Route.clientTextKeys =
+        ["type".toList, "sender".toList, "interface".toList, "member".toList, "path".toList,
+         "path_namespace".toList, "destination".toList, "arg%d".toList, "arg%dpath".toList,
+         "arg0namespace".toList] := by decide
+
+theorem gen_eq_cur : Tables.gen = Tables.cur := tables_current.1
+
+/-- `_mtypes` is the specification's table of message type names. -/
+theorem mtypes_table_is_spec (s : Str) (n : Nat) :
+    Tables.gen.mtypes.lookup s = some n ↔ Spec.mtypeName n = some s := by
+  rw [gen_eq_cur]; exact cur_mtypes_lookup s n
+
+/-! ## 1. `Rule.match` is `specMatches` -/
+
+/-- For every well-formed rule (no constraint value is the empty string) and every message:
+`MessageRouter.addMatch` succeeds, and the stored rule's `match` invokes the callback if and only if
+the message satisfies every constraint of the rule - type, interface, member, path, path namespace
+(that path or a descendant), destination, exact string arguments, argument paths. -/
+theorem match_eq_spec (a : RuleArgs) (m : Msg) (hwf : a.WF) :
+    ∃ r, mkRule Tables.gen a = .ok r ∧ (r.match m = .call ↔ specMatches a m = true) := by
+  rw [gen_eq_cur]
+  exact ⟨explicitRule a, mkRule_cur a, explicit_match_iff a m hwf⟩
+
+/-- The hypothesis is satisfiable by a rule that uses every constraint key. -/
+example : RuleArgs.WF
+    { mtype := some "signal".toList, iface := some "a.b".toList, member := some "M".toList,
+      path := some "/a/b".toList, pathNs := some "/a".toList, dest := some ":1.1".toList,
+      args := some [(0, "x".toList), (1, [])], argPaths := some [(2, "/aa/".toList)] } :=
+  ⟨by decide, by decide, by decide, by decide, by decide, by decide⟩
+
+/-- ... and such a rule does match a signal that satisfies it (the theorem is not vacuous). -/
+example : specMatches
+    { mtype := some "signal".toList, iface := some "a.b".toList, pathNs := some "/a".toList,
+      args := some [(0, "x".toList)], argPaths := some [(1, "/aa/".toList)] }
+    { mtype := 4, path := .some "/a/b".toList, iface := .some "a.b".toList, member := .some "M".toList,
+      dest := .none, sender := .none, body := some [.str "x".toList, .str "/aa/bb".toList] } = true := by decide
+
+/-! ## 2. routing over all add/remove histories -/
+
+/-- `route_exact`.  Run any history of `addMatch` / `delMatch` / `routeMessage` operations on a fresh
+`MessageRouter`, with callbacks raising or not as `raises` says.  What the caller observes (ids
+returned, `KeyError`s, and for every routed message the list of (rule id, callback) pairs invoked) is
+exactly what the abstract registry prescribes: ids are handed out in order, a routed message invokes
+the currently registered rules that `specMatches`, each once, in registration order. -/
+theorem route_exact (raises : Nat → Cb → Bool) (h : List Op) (hwf : ∀ op ∈ h, op.WF) :
+    (Router.run Tables.gen raises {} h).2.map Obs.view = (SpecRouter.run {} h).2.map some := by
+  rw [gen_eq_cur]
+  exact (sim_run raises h {} {} sim_init hwf).2
+
+/-- What is invoked does not depend on which callbacks raise. -/
+theorem route_independent_of_raising (raises₁ raises₂ : Nat → Cb → Bool) (h : List Op) (hwf : ∀ op ∈ h, op.WF) :
+    (Router.run Tables.gen raises₁ {} h).2.map Obs.view = (Router.run Tables.gen raises₂ {} h).2.map Obs.view := by
+  rw [route_exact raises₁ h hwf, route_exact raises₂ h hwf]
+
+/-- After any history, a routed message invokes exactly the live registrations whose rule it satisfies
+(stated on the final state), and no rule more than once. -/
+theorem invoked_exact_each_once (raises : Nat → Cb → Bool) (h : List Op) (hwf : ∀ op ∈ h, op.WF) (m : Msg) :
+    let s := (Router.run Tables.gen raises {} h).1
+    let g := (SpecRouter.run {} h).1
+    (s.route raises m).invoked = (g.live.filter (fun r => specMatches r.args m)).map (fun r => (r.id, r.cb))
+    ∧ ((s.route raises m).invoked.map (·.1)).Nodup := by
+  intro s g
+  have hsim : Sim s g := by
+    show Sim (Router.run Tables.gen raises {} h).1 _
+    rw [gen_eq_cur]; exact (sim_run raises h {} {} sim_init hwf).1
+  have hinv : SpecInv g := specInv_run h {} specInv_init
+  have heq : (s.route raises m).invoked
+      = (g.live.filter (fun r => specMatches r.args m)).map (fun r => (r.id, r.cb)) := by
+    unfold Router.route
+    rw [hsim.rules, routeList_invoked raises m g.live hsim.wf]
+  refine ⟨heq, ?_⟩
+  rw [heq, List.map_map]
+  have hsub : ((g.live.filter (fun r => specMatches r.args m)).map ((fun x : Nat × Cb => x.1) ∘ fun r => (r.id, r.cb))).Sublist
+      (g.live.map (·.id)) := by
+    have : ((fun x : Nat × Cb => x.1) ∘ fun (r : Reg) => (r.id, r.cb)) = (·.id) := rfl
+    rw [this]
+    exact List.Sublist.map _ List.filter_sublist
+  exact (List.Pairwise.sublist hsub hinv.sorted).imp (fun hlt => Nat.ne_of_lt hlt)
+
+/-- Once `delMatch(id)` succeeded, no later message - after any further history - invokes rule `id`. -/
+theorem removed_never_invoked (raises : Nat → Cb → Bool) (h₁ h₂ : List Op) (id : Nat) (m : Msg)
+    (hwf₁ : ∀ op ∈ h₁, op.WF) (hwf₂ : ∀ op ∈ h₂, op.WF)
+    (s₂ : Router) (hdel : (Router.run Tables.gen raises {} h₁).1.del id = some s₂) :
+    id ∉ ((Router.run Tables.gen raises s₂ h₂).1.route raises m).invoked.map (·.1) := by
+  rw [gen_eq_cur] at hdel ⊢
+  have hs1 := (sim_run raises h₁ {} {} sim_init hwf₁).1
+  have hi1 : SpecInv (SpecRouter.run {} h₁).1 := specInv_run h₁ {} specInv_init
+  generalize (Router.run Tables.cur raises {} h₁).1 = s₁ at hs1 hdel
+  generalize (SpecRouter.run {} h₁).1 = g₁ at hs1 hi1
+  -- the deletion succeeded, so the id was live
+  have hany : g₁.live.any (fun r => r.id = id) = true := by
+    unfold Router.del at hdel
+    rw [hs1.rules, any_entry] at hdel
+    cases hb : g₁.live.any (fun r => r.id = id) with
+    | true => rfl
+    | false => rw [hb] at hdel; simp at hdel
+  have hstep := sim_step raises s₁ g₁ (.del id) hs1 trivial
+  have hs2 : Sim s₂ (g₁.step (.del id)).1 := by
+    have : (s₁.step Tables.cur raises (.del id)).1 = s₂ := by
+      simp only [Router.step, hdel]
+    rw [← this]; exact hstep.1
+  have hlt : id < (g₁.step (.del id)).1.count := by
+    simp only [SpecRouter.step, hany, if_true]
+    rw [List.any_eq_true] at hany
+    obtain ⟨r, hr, hrid⟩ := hany
+    have := hi1.lt r hr
+    simp at hrid
+    omega
+  have hdead : ∀ r ∈ (g₁.step (.del id)).1.live, r.id ≠ id := by
+    simp only [SpecRouter.step, hany, if_true]
+    intro r hr
+    have := (List.mem_filter.mp hr).2
+    simpa using this
+  have hdead' := dead_stays_dead h₂ _ id hlt hdead
+  have hs3 := (sim_run raises h₂ s₂ _ hs2 hwf₂).1
+  unfold Router.route
+  rw [hs3.rules, routeList_invoked raises m _ hs3.wf]
+  intro hmem
+  simp only [List.map_map, List.mem_map, Function.comp] at hmem
+  obtain ⟨r, hr, hrid⟩ := hmem
+  exact hdead' r (List.mem_filter.mp hr).1 hrid
+
+/-- Rule ids are never reused: the ids returned over any history are strictly increasing. -/
+theorem ids_never_reused (raises : Nat → Cb → Bool) (h : List Op) (hwf : ∀ op ∈ h, op.WF) :
+    (returnedIds (Router.run Tables.gen raises {} h).2).Pairwise (· < ·) := by
+  rw [returnedIds_eq _ _ (route_exact raises h hwf)]
+  exact (addedIds_run h {}).1
+
+/-- A history that exercises the theorems: two rules, a matching signal, a removal, the signal again. -/
+example :
+    let sig : Msg := { mtype := 4, path := .some "/a/b".toList, iface := .some "a.b".toList,
+                       member := .some "M".toList, dest := .none, sender := .none, body := none }
+    (Router.run Tables.cur (fun _ cb => cb == 0) {}
+      [.add 0 { pathNs := some "/a".toList }, .add 1 { mtype := some "signal".toList },
+       .route sig, .del 0, .route sig]).2
+    = [.added 0, .added 1, .routed { invoked := [(0, 0), (1, 1)], logged := 1 }, .deleted,
+       .routed { invoked := [(1, 1)], logged := 0 }] := by decide
+
+/-! ## 3. the rule text -/
+
+/-- `rule_text_roundtrip`.  For rule values free of `,` and `=` (the hypothesis `TextOk`; in particular
+for values free of `'`, `,`, `=`) and at least one constraint, `Bus.dbus_AddMatch` recovers from the
+text written by `DBusClientConnection.addMatch` exactly the constraints the client was given
+(`arg=[]` and `arg=None` being the same rule). -/
+theorem rule_text_roundtrip (a : RuleArgs) (hok : a.TextOk) (hne : renderItems a ≠ []) :
+    parseRuleGen (renderRule a) = .ok a.normalize := by
+  unfold parseRuleGen
+  rw [tables_current.2.1]
+  exact parse_render a hok hne
+
+/-- ... and the rule the bus stores from that text is the rule the client stores locally. -/
+theorem bus_rule_is_client_rule (a : RuleArgs) : mkRule Tables.gen a.normalize = mkRule Tables.gen a := by
+  unfold mkRule
+  congr 1
+  funext r pk
+  unfold addStep
+  cases r with
+  | error e => rfl
+  | ok r =>
+    cases Param.ofName pk.1 with
+    | none => rfl
+    | some p =>
+      simp only
+      cases p <;> try rfl
+      · simp only [RuleArgs.get, RuleArgs.normalize]
+        exact normPairs_if a.args (fun v => Except.ok (Rule.add Tables.gen r pk.snd (Tables.gen.storedValue Param.args v))) _
+      · simp only [RuleArgs.get, RuleArgs.normalize]
+        exact normPairs_if a.argPaths (fun v => Except.ok (Rule.add Tables.gen r pk.snd (Tables.gen.storedValue Param.argPaths v))) _
+
+example : RuleArgs.TextOk { mtype := some "signal".toList, args := some [(12, "it's".toList)] } ∧
+    renderItems { mtype := some "signal".toList, args := some [(12, "it's".toList)] } ≠ [] := by
+  have hnone : optOk none := fun s hs => by cases hs
+  refine ⟨⟨?_, hnone, hnone, hnone, hnone, hnone, hnone, hnone, ?_, ?_⟩, by decide⟩
+  · intro s hs; cases hs; exact ⟨by decide, by decide⟩
+  · intro iv hiv
+    have : iv = (12, "it's".toList) := by simpa using hiv
+    subst this; exact ⟨by decide, by decide⟩
+  · intro iv hiv; exact (List.not_mem_nil hiv).elim
+
+/-- The text itself, on an example (`type`, then `argN` with a two-digit index). -/
+example : renderRule { mtype := some "signal".toList, path := some "/a".toList, args := some [(12, "x".toList)] }
+    = "type='signal',path='/a',arg12='x'".toList := by decide
+
+/-- The empty rule (no constraint at all) is rendered as the empty text, which `Bus.dbus_AddMatch`
+rejects with `ValueError` (unpacking `''.split('=')`): the round trip needs at least one constraint. -/
+theorem empty_rule_rejected_by_bus : renderRule {} = [] ∧ parseRule curBusKeys [] = .error .valueError :=
+  ⟨rfl, rfl⟩
+
+/-! ## 4. the proxy's signal subscription -/
+
+/-- `proxy_gate`.  `callback_caller` hands the signal's arguments to the user callback if and only if the
+signal's signature is the declared one (an absent signature and `''` being the same); the arguments
+are the body, unchanged. -/
+theorem proxy_gate (declared received : Option Str) (body : Option (List Arg)) :
+    (∀ args, proxyGate declared received body = some args → sigNorm declared = sigNorm received ∧ args = body.getD [])
+    ∧ (sigNorm declared = sigNorm received → proxyGate declared received body = some (body.getD [])) := by
+  rw [proxyGate_args]
+  constructor
+  · intro args h
+    cases hv : isSignatureValid declared received with
+    | false => rw [hv] at h; simp at h
+    | true =>
+      rw [hv] at h
+      simp only [if_true, Option.some.injEq] at h
+      exact ⟨(isSignatureValid_iff _ _).mp hv, h.symm⟩
+  · intro h
+    rw [(isSignatureValid_iff _ _).mpr h]
+    rfl
+
+/-- The rule `notifyOnSignal` registers (`mtype='signal', path, member, interface`) together with the
+gate: the user callback receives the arguments iff the message is that signal of that object with the
+declared signature. -/
+theorem proxy_delivery (path member iface : Str) (hp : path ≠ []) (hm : member ≠ []) (hi : iface ≠ [])
+    (declared received : Option Str) (m : Msg) :
+    ∃ r, mkRule Tables.gen { mtype := some "signal".toList, path := some path, member := some member, iface := some iface } = .ok r
+      ∧ ((r.match m = .call ∧ (proxyGate declared received m.body).isSome)
+          ↔ (m.mtype = 4 ∧ m.path = .some path ∧ m.member = .some member ∧ m.iface = .some iface
+              ∧ sigNorm declared = sigNorm received)) := by
+  have hwf : RuleArgs.WF { mtype := some "signal".toList, path := some path, member := some member, iface := some iface } :=
+    ⟨by simp, by simpa using hi, by simpa using hm, by simpa using hp, by simp, by simp⟩
+  obtain ⟨r, hr, hiff⟩ := match_eq_spec _ m hwf
+  refine ⟨r, hr, ?_⟩
+  rw [hiff, proxyGate_args]
+  have hsig : (Spec.mtypeName m.mtype == some "signal".toList) = true ↔ m.mtype = 4 := by
+    constructor
+    · intro h
+      have h' := beq_iff_eq.mp h
+      unfold Spec.mtypeName at h'
+      split at h' <;> first | assumption | exact absurd h' (by decide) | simp at h'
+    · intro h; rw [h]; decide
+  simp only [specMatches, Spec.optAll, Option.getD_none, List.all_nil, Bool.and_true, Bool.and_eq_true, beq_iff_eq,
+    hsig]
+  cases hv : isSignatureValid declared received with
+  | false =>
+    have : ¬ sigNorm declared = sigNorm received := fun e => by
+      rw [(isSignatureValid_iff _ _).mpr e] at hv; cases hv
+    simp [this]
+  | true =>
+    have := (isSignatureValid_iff _ _).mp hv
+    simp only [if_true, Option.isSome_some, and_true, this]
+    constructor
+    · rintro ⟨⟨⟨h1, h2⟩, h3⟩, h4⟩; exact ⟨h1, h4, h3, h2⟩
+    · rintro ⟨h1, h2, h3, h4⟩; exact ⟨⟨⟨h1, h4⟩, h3⟩, h2⟩
+
+/-! ## 5. the client connection -/
+
+/-- `client_refines_router`.  Over every history of `addMatch` / `delMatch` calls, replies from the daemon
+(in any order, success or error) and incoming signals, the connection's local router is the result of a
+router history (`Client.routerTrace`): an acknowledged `AddMatch` is one `addMatch`, an acknowledged
+`RemoveMatch` of a registered id is one `delMatch`, a signal is one `routeMessage`, nothing else touches it. -/
+theorem client_refines_router (raises : Nat → Cb → Bool) (h : List COp) (c : Client) :
+    (Client.run Tables.gen raises c h).1.router
+      = (Router.run Tables.gen raises c.router (Client.routerTrace Tables.gen raises c h)).1 :=
+  client_run_router Tables.gen raises h c
+
+/-- After any client history: a signal invokes exactly the acknowledged, not yet removed rules it
+satisfies; and `match_rules` holds for each of them the text rendered from its constraints - which is
+both what `AddMatch` carried and what `delMatch` puts into `RemoveMatch`. -/
+theorem client_signal_exact (raises : Nat → Cb → Bool) (h : List COp) (hwf : ∀ op ∈ h, op.WF) (m : Msg) :
+    let c := (Client.run Tables.gen raises {} h).1
+    let g := Client.specAfter raises {} {} h
+    (c.router.route raises m).invoked = (g.live.filter (fun r => specMatches r.args m)).map (fun r => (r.id, r.cb))
+    ∧ c.matchRules = g.live.map (fun r => (r.id, renderRule r.args)) := by
+  intro c g
+  have hc : CInv c g := by
+    show CInv (Client.run Tables.gen raises {} h).1 _
+    rw [gen_eq_cur]; exact cinv_run raises h {} {} cinv_init hwf
+  refine ⟨?_, hc.texts⟩
+  unfold Router.route
+  rw [hc.sim.rules, routeList_invoked raises m g.live hc.sim.wf]
+
+/-! ## 6. witnesses: the snapshot before the repairs violates the property at these inputs
+
+(`Pre.outcome` is the model of the unrepaired `router.py`; each line is also the replay of the defect on
+the implementation - see corpus/C12.) -/
+
+def sigMsg (path : String) (body : Option (List Arg)) : Msg :=
+  { mtype := 4, path := .some path.toList, iface := .some "a.b".toList, member := .some "M".toList,
+    dest := .none, sender := .none, body := body }
+
+/-- F15: a rule `type='error'` received signals. -/
+theorem prefix_mtype_constraint_ignored :
+    Pre.outcome { mtype := some "error".toList } (sigMsg "/a/b" none) = some .call
+    ∧ specMatches { mtype := some "error".toList } (sigMsg "/a/b" none) = false := by decide
+
+/-- F16: `path_namespace='/a/b'` matched the sibling `/a/bc`. -/
+theorem prefix_path_namespace_sibling :
+    Pre.outcome { pathNs := some "/a/b".toList } (sigMsg "/a/bc" none) = some .call
+    ∧ specMatches { pathNs := some "/a/b".toList } (sigMsg "/a/bc" none) = false := by decide
+
+/-- F17: `arg0='x'` matched a signal without arguments. -/
+theorem prefix_arg_constraint_skipped_no_body :
+    Pre.outcome { args := some [(0, "x".toList)] } (sigMsg "/a/b" none) = some .call
+    ∧ specMatches { args := some [(0, "x".toList)] } (sigMsg "/a/b" none) = false := by decide
+
+/-- F17: `arg0path='/aa/bb'` matched `/aa/bbc`. -/
+theorem prefix_argpath_plain_startswith :
+    Pre.outcome { argPaths := some [(0, "/aa/bb".toList)] } (sigMsg "/a/b" (some [.str "/aa/bbc".toList])) = some .call
+    ∧ specMatches { argPaths := some [(0, "/aa/bb".toList)] } (sigMsg "/a/b" (some [.str "/aa/bbc".toList])) = false := by
+  decide
+
+/-- F17: `arg0path='/aa/bb/'` did not match `/aa/`. -/
+theorem prefix_argpath_trailing_slash :
+    Pre.outcome { argPaths := some [(0, "/aa/bb/".toList)] } (sigMsg "/a/b" (some [.str "/aa/".toList])) = some .skip
+    ∧ specMatches { argPaths := some [(0, "/aa/bb/".toList)] } (sigMsg "/a/b" (some [.str "/aa/".toList])) = true := by
+  decide
+
+end Txdbus.Route
+
+#print axioms Txdbus.Route.tables_current
+#print axioms Txdbus.Route.gen_eq_cur
+#print axioms Txdbus.Route.mtypes_table_is_spec
+#print axioms Txdbus.Route.match_eq_spec
+#print axioms Txdbus.Route.route_exact
+#print axioms Txdbus.Route.route_independent_of_raising
+#print axioms Txdbus.Route.invoked_exact_each_once
+#print axioms Txdbus.Route.removed_never_invoked
+#print axioms Txdbus.Route.ids_never_reused
+#print axioms Txdbus.Route.rule_text_roundtrip
+#print axioms Txdbus.Route.bus_rule_is_client_rule
+#print axioms Txdbus.Route.empty_rule_rejected_by_bus
+#print axioms Txdbus.Route.proxy_gate
+#print axioms Txdbus.Route.proxy_delivery
+#print axioms Txdbus.Route.client_refines_router
+#print axioms Txdbus.Route.client_signal_exact
+#print axioms Txdbus.Route.prefix_mtype_constraint_ignored
+#print axioms Txdbus.Route.prefix_path_namespace_sibling
+#print axioms Txdbus.Route.prefix_arg_constraint_skipped_no_body
+#print axioms Txdbus.Route.prefix_argpath_plain_startswith
+#print axioms Txdbus.Route.prefix_argpath_trailing_slash
